@@ -224,21 +224,21 @@ def prologue (evs : List SyncItem) : List (SyncEv × List Nat) :=
     has the read-only guard (ErrReadOnlyTxn) right after it. Removing a guard from any method breaks this theorem. -/
 theorem guards_in_every_method :
     sync_txnMethods.map (fun m => (m.1, prologue m.2.2)) =
-      [(b "Handle", [(.guardSettled, b "panic(ErrSettledTxn)"), (.guardReadOnly, b "return nil, ErrReadOnlyTxn")]),
-       (b "HandleRoute", [(.guardSettled, b "panic(ErrSettledTxn)"), (.guardReadOnly, b "return ErrReadOnlyTxn")]),
-       (b "Update", [(.guardSettled, b "panic(ErrSettledTxn)"), (.guardReadOnly, b "return nil, ErrReadOnlyTxn")]),
-       (b "UpdateRoute", [(.guardSettled, b "panic(ErrSettledTxn)"), (.guardReadOnly, b "return ErrReadOnlyTxn")]),
+      [(b "Abort", [(.guardReadOnly, b "return"), (.guardSettled, b "return")]),
+       (b "Commit", [(.guardReadOnly, b "return"), (.guardSettled, b "return")]),
        (b "Delete", [(.guardSettled, b "panic(ErrSettledTxn)"), (.guardReadOnly, b "return nil, ErrReadOnlyTxn")]),
-       (b "Truncate", [(.guardSettled, b "panic(ErrSettledTxn)"), (.guardReadOnly, b "return ErrReadOnlyTxn")]),
+       (b "Handle", [(.guardSettled, b "panic(ErrSettledTxn)"), (.guardReadOnly, b "return nil, ErrReadOnlyTxn")]),
+       (b "HandleRoute", [(.guardSettled, b "panic(ErrSettledTxn)"), (.guardReadOnly, b "return ErrReadOnlyTxn")]),
        (b "Has", [(.guardSettled, b "panic(ErrSettledTxn)")]),
-       (b "Route", [(.guardSettled, b "panic(ErrSettledTxn)")]),
-       (b "Reverse", [(.guardSettled, b "panic(ErrSettledTxn)")]),
-       (b "Lookup", [(.guardSettled, b "panic(ErrSettledTxn)")]),
        (b "Iter", [(.guardSettled, b "panic(ErrSettledTxn)")]),
        (b "Len", [(.guardSettled, b "panic(ErrSettledTxn)")]),
-       (b "Commit", [(.guardReadOnly, b "return"), (.guardSettled, b "return")]),
-       (b "Abort", [(.guardReadOnly, b "return"), (.guardSettled, b "return")]),
-       (b "Snapshot", [(.guardSettled, b "return nil")])] ∧
+       (b "Lookup", [(.guardSettled, b "panic(ErrSettledTxn)")]),
+       (b "Reverse", [(.guardSettled, b "panic(ErrSettledTxn)")]),
+       (b "Route", [(.guardSettled, b "panic(ErrSettledTxn)")]),
+       (b "Snapshot", [(.guardSettled, b "return nil")]),
+       (b "Truncate", [(.guardSettled, b "panic(ErrSettledTxn)"), (.guardReadOnly, b "return ErrReadOnlyTxn")]),
+       (b "Update", [(.guardSettled, b "panic(ErrSettledTxn)"), (.guardReadOnly, b "return nil, ErrReadOnlyTxn")]),
+       (b "UpdateRoute", [(.guardSettled, b "panic(ErrSettledTxn)"), (.guardReadOnly, b "return ErrReadOnlyTxn")])] ∧
     -- and the guards come first: no method has a sync event or a call before them
     sync_txnMethods.all (fun m => match m.2.2 with
       | e :: _ => e.ev == .guardSettled || e.ev == .guardReadOnly
